@@ -1,5 +1,6 @@
 import Driver.Proto
 import Model.Eval
+import Model.EvalFixed
 import Generated.Facts
 open Proto Eval
 
@@ -7,7 +8,10 @@ open Proto Eval
     `s <hex>`      structure pass: `Evaluate` with symbolic operators on the evaluator kept across lines -> `ok <hex>` | `err`
     `f <hex>`      the same with the float operator table / function names
     `t <hex>`      value pass: the parse tree (variables substituted by the fixed literal resolver) in prefix form
-    `a <hex>`      NextArg -> `<hex> <hex>` -/
+    `a <hex>`      NextArg -> `<hex> <hex>`
+    `x <k> <z> <hex>`  value pass of the FIXED evaluator, computed by the model (`Model/EvalFixed.lean`): configuration
+                   `fixed.Dk`, divideByZeroReturnsZero = z, variables from the literal table ->
+                   `n <raw>` | `b true` | `b false` | `s <hex>` | `err` | `opaque` (depends on float64 arithmetic) -/
 
 def fixedOps : List Op := opsOf Facts.fixedOperators
 def floatOps : List Op := opsOf Facts.floatOperators
@@ -86,6 +90,17 @@ def step (st : St) (line : String) : St × String :=
     match hexBytes? h with
     | some s => (st, bytesHex (nextArg s).1 ++ " " ++ bytesHex (nextArg s).2)
     | none => (st, "bad-op")
+  | ["x", k, z, h] =>
+    match hexBytes? h, k.toNat?, EvalFixed.cfg? (k.toNat?.getD 0) (z == "1") with
+    | some s, some _, some c =>
+      (st, match EvalFixed.evaluate c fixedOps fixedFns (some valueResolve) (s.length + 1) s with
+        | .ok (.num raw) => "n " ++ toString raw
+        | .ok (.bool b) => if b then "b true" else "b false"
+        | .ok (.str t) => "s " ++ bytesHex t
+        | .err => "err"
+        | .panic => "panic"
+        | .opaque => "opaque")
+    | _, _, _ => (st, "bad-op")
   | ["reset"] => ({}, "reset")
   | _ => (st, "bad-op")
 
